@@ -356,29 +356,29 @@ def rule_d(R, ctx):
     R.ob("C02.d", fn, "formula", ok and len(keys) == 2, "return value = %s%s" % (fshow(f), "" if ok else "; counterexample %s" % cex))
 
 
-def rule_f(R, ctx):
+def rule_f(R, ctx, rid="C02.f"):
     Y = ctx.yrs
-    R.rule("C02.f", "R-GUARD/R-PROV out-of-order integration: Update::integrate calls integrate_skip only under offset < 0 with the "
+    R.rule(rid, "R-GUARD/R-PROV out-of-order integration: Update::integrate calls integrate_skip only under offset < 0 with the "
                     "gap range (client, local clock, |offset|), and BlockStore::push replaces an integrated Skip by splitting it "
                     "(skips.remove_range of the pushed block's own range)")
     ig = Y.fn("yrs::update::Update::integrate")
     iv = FnView(ig)
     sk = ig.calls_to(TXN + "::integrate_skip")
-    R.floor("C02.f", "integrate_skip call in Update::integrate", len(sk), 1)
+    R.floor(rid, "integrate_skip call in Update::integrate", len(sk), 1)
     for cs, site in ordinal_sites(sk):
         ok = iv.has_guard(cs.bb, lambda l: l.term[0] == "bin" and l.term[1] == "Lt" and l.polarity is True
                           and simp(l.term[3])[0] == "const" and simp(l.term[3])[1] == 0)
         nomiss = iv.has_guard(cs.bb, lambda l: term_has_call(l.term, "yrs::update::Update::missing_dependency") and l.polarity == "None")
-        R.ob("C02.f", ig, site, ok and nomiss, "guards: %s" % iv.guard_descs(cs.bb), cs.loc())
+        R.ob(rid, ig, site, ok and nomiss, "guards: %s" % iv.guard_descs(cs.bb), cs.loc())
     ps = Y.fn("yrs::block_store::BlockStore::push")
     pv = FnView(ps)
     rr = ps.calls_to("re:^yrs::ids::IdMapInner<.*>::remove_range$", "re:remove_range$")
-    R.floor("C02.f", "skips.remove_range in BlockStore::push", len(rr), 1)
+    R.floor(rid, "skips.remove_range in BlockStore::push", len(rr), 1)
     for cs, site in ordinal_sites(rr):
         recv = simp_deep(pv.arg(cs, 0))
         a = pv.arg(cs, 1)
         ok = field_path(recv)[-1:] == ["skips"] and term_has_call(a, "yrs::block::Block::range") and root_name(simp(simp_deep(a)[2][0]) if simp_deep(a)[0] == "call" else a) == "block"
-        R.ob("C02.f", ps, site, ok, "skips.remove_range(%s)" % sshow(a), cs.loc())
+        R.ob(rid, ps, site, ok, "skips.remove_range(%s)" % sshow(a), cs.loc())
 
 
 def _norm(t):
@@ -443,6 +443,29 @@ def rule_g(R, ctx, rid="C02.g"):
              "dependency %s is reported missing under a different test than BlockStore::is_missing(store.blocks, <that id>): %s — "
              "a skip-unaware presence test lets a block integrate while its dependency is still a gap" %
              (sshow(idt), [l.desc for l in v.guards(bb)]), "%s:%s" % (fn.file, line))
+    # each dependency test is skipped under no other condition than "this kind of dependency does not exist on the block"
+    for cs in fn.calls_to("yrs::block_store::BlockStore::is_missing"):
+        idt = v.arg(cs, 1, 24)
+        name = None
+        for nm, fld, _w in DEPENDENCIES:
+            if term_has_field(idt, fld):
+                name = nm
+        extra = []
+        for l in v.guards(cs.bb):
+            t = simp_deep(l.term)
+            if isinstance(l.polarity, str) and l.polarity in ("Item", "Some", "ID", "Branch", "Type", "WeakLink"):
+                continue  # shape of the block: the dependency exists
+            if name == "quote end" and t[0] == "call" and re.search(r"PartialEq(<.*>)?>?::ne$", t[1]) and l.polarity is True and \
+                    term_has_field(t, "LinkSource.quote_start") and term_has_field(t, "LinkSource.quote_end") and \
+                    all(simp_deep(a)[0] == "call" and simp_deep(a)[1].endswith("StickyIndex::id") for a in t[2]):
+                continue  # a single-element quotation has one boundary id
+            if t[0] == "call" and callee_match(t[1], "yrs::block_store::BlockStore::is_missing") and l.polarity is False:
+                continue  # an earlier dependency was present
+            extra.append(l.desc)
+        R.ob(rid, fn, "unconditional:%s" % (name or sshow(idt, 4)), not extra,
+             "the %s test is skipped only when the block has no such dependency" % name if not extra else
+             "the %s dependency is tested only under %s: blocks for which that condition fails are integrated without waiting for it" % (name, extra[:2]),
+             cs.loc())
     for nm, fld, weak in DEPENDENCIES:
         if weak and not ("weak" in Y.features):
             continue
